@@ -614,7 +614,10 @@ func inlineNewHelpers(f *ssa.Function) bool {
 		return false
 	}
 	n := f.Name()
-	if n == "" || n == "init" || ast.IsExported(n) || knownHelpers[helperKey(f)] {
+	if n == "" || n == "init" || knownHelpers[helperKey(f)] {
+		return false
+	}
+	if ast.IsExported(n) && knownExported[helperKey(f)] {
 		return false
 	}
 	return true
